@@ -11,6 +11,9 @@ type Prop struct {
 	Run        func(c *rt.Ctx)
 	// Setup runs once per worker process before any batch (arming hooks etc.).
 	Setup func(c *rt.Ctx)
+	// Cold executes one call descriptor alone (cold oracle of the history properties); the worker
+	// re-executes itself with -cold <spec> and prints the result.
+	Cold func(c *rt.Ctx, spec string) string
 }
 
 var Registry = map[string]*Prop{}
